@@ -52,7 +52,10 @@ func (g *opsGen) norm(s string) string {
 	return s
 }
 
-func op(kind, what string) string { return fmt.Sprintf("SPrim (POp %q %q)", kind, what) }
+// coqStr renders a Coq string literal (a double quote is written twice).
+func coqStr(s string) string { return "\"" + strings.ReplaceAll(s, "\"", "\"\"") + "\"" }
+
+func op(kind, what string) string { return "SPrim (POp " + coqStr(kind) + " " + coqStr(what) + ")" }
 
 var opsBuiltins = map[string]bool{"len": true, "cap": true, "new": true, "panic": true, "min": true, "max": true, "string": true,
 	"int": true, "uint": true, "uint16": true, "uint64": true, "int64": true, "byte": true, "copy": true, "delete": true, "clear": true}
@@ -136,6 +139,12 @@ func (g *opsGen) expr(e ast.Expr) (out []string) {
 	case *ast.CompositeLit:
 		for _, el := range x.Elts {
 			out = append(out, g.expr(el)...)
+			if kv, ok := el.(*ast.KeyValueExpr); ok {
+				// which value a struct field is built from: mu: h.mu, textAttrs: append(...)
+				if _, isFn := kv.Value.(*ast.FuncLit); !isFn {
+					out = append(out, op("lit-field", g.norm(g.text(kv.Key))+": "+g.norm(g.text(kv.Value))))
+				}
+			}
 		}
 		return out
 	case *ast.KeyValueExpr:
@@ -178,7 +187,7 @@ func (g *opsGen) stmt(s ast.Stmt) (out []string) {
 			// a plain value stored in a local or named result: status = osutil.ExitCodeFailure
 			if _, isID := x.Lhs[0].(*ast.Ident); isID {
 				switch x.Rhs[0].(type) {
-				case *ast.Ident, *ast.SelectorExpr, *ast.BasicLit:
+				case *ast.Ident, *ast.SelectorExpr, *ast.BasicLit, *ast.SliceExpr:
 					out = append(out, op("assign", g.norm(g.text(x))))
 				}
 			}
@@ -439,6 +448,17 @@ var opsTargets = []opsTarget{
 	{"service/refreshworker.go", "RefreshWorker", "refreshInALoop", "gen_ops_RefreshWorker_refreshInALoop"},
 	{"service/refreshworker.go", "RefreshWorker", "refresh", "gen_ops_RefreshWorker_refresh"},
 	{"service/refreshworker.go", "RefreshWorker", "Shutdown", "gen_ops_RefreshWorker_Shutdown"},
+	{"logutil/slogutil/jsonhybrid.go", "", "NewJSONHybridHandler", "gen_ops_NewJSONHybridHandler"},
+	{"logutil/slogutil/jsonhybrid.go", "JSONHybridHandler", "Enabled", "gen_ops_JSONHybridHandler_Enabled"},
+	{"logutil/slogutil/jsonhybrid.go", "JSONHybridHandler", "Handle", "gen_ops_JSONHybridHandler_Handle"},
+	{"logutil/slogutil/jsonhybrid.go", "", "newJSONHybridMessage", "gen_ops_newJSONHybridMessage"},
+	{"logutil/slogutil/jsonhybrid.go", "JSONHybridHandler", "WithAttrs", "gen_ops_JSONHybridHandler_WithAttrs"},
+	{"logutil/slogutil/jsonhybrid.go", "byteString", "MarshalText", "gen_ops_byteString_MarshalText"},
+	{"logutil/slogutil/slogutil.go", "", "newBufferedTextHandler", "gen_ops_newBufferedTextHandler"},
+	{"logutil/slogutil/slogutil.go", "bufferedTextHandler", "reset", "gen_ops_bufferedTextHandler_reset"},
+	{"syncutil/pool.go", "", "NewPool", "gen_ops_NewPool"},
+	{"syncutil/pool.go", "Pool", "Get", "gen_ops_Pool_Get"},
+	{"syncutil/pool.go", "Pool", "Put", "gen_ops_Pool_Put"},
 }
 
 func init() {
